@@ -163,7 +163,7 @@ fn big_echo_check(c: &BigEcho, st: &mut Stats) -> Check {
             }
             let d = decode_reply(&r).map_err(|e| Failure::new(format!("big echo reply does not decode: {}", e)))?;
             vensure!(r.len() == reqf.len(), "echo reply of {} bytes to a request of {} bytes", r.len(), reqf.len());
-            wf_verdict(&d, &reqf[..64], &r[..64], st).map_err(|f| Failure::new(format!("(echo data length {}) {}", n, f.msg)))
+            wf_verdict(&d, &reqf[..reqf.len().min(64)], &r[..r.len().min(64)], st).map_err(|f| Failure::new(format!("(echo data length {}) {}", n, f.msg)))
         }
         Out::Silence => vfail!("echo request with {} data bytes not answered", n),
         Out::Panic(p) => Err(Failure::keyed(p.key(), format!("panic on echo request with {} data bytes: {} {}", n, p.file, p.msg))),
